@@ -5,6 +5,8 @@ import (
 	"go/ast"
 	"go/token"
 	"go/types"
+	"regexp"
+	"strconv"
 	"strings"
 )
 
@@ -94,6 +96,10 @@ func c16BCE(c *Check, a *Anchors) {
 		pk := strings.TrimPrefix(strings.TrimPrefix(s.FB.Pkg.PkgPath, Mod), "/")
 		if pk == "" {
 			pk = "task"
+		}
+		if why := parallelMadeIndex(s.FB, s.Node); why != "" {
+			c.OK("bounds-reviewed", ordinal(ord, pk+"|made-with-len-of-ranged-slice"), s.Node.Pos(), why)
+			continue
 		}
 		k := pk + "|" + shapeOf(s.FB.Info(), s.Node.(ast.Expr))
 		if _, listed := bceReviewed[k]; !listed {
@@ -221,7 +227,6 @@ func shapeOf(info *types.Info, e ast.Expr) string {
 }
 
 var otherReviewed = map[string]string{
-	"taskfile/ast.(*Task).WildcardMatch|regexp.MustCompile":              "the pattern consists of regexp.QuoteMeta'd pieces joined by a fixed group (decided by rule pattern-literal, re-run here)",
 	"internal/deepcopy.TraverseStringsFunc|copy.Interface().(T)":         "the copy is created with reflect.New(original.Type()), so it has the static type T",
 	"taskfile.(*Reader).include$1|edge.Properties.Data.([]*ast.Include)": "edge data is only ever written by this function as []*ast.Include",
 	"taskfile.init|panic":   "init-time registration of the embedded syntax-highlighting style / lexer; independent of user input",
@@ -294,6 +299,27 @@ func c16OtherPanics(c *Check, a *Anchors) {
 						}
 					}
 					if !constArgs {
+						// regexp.MustCompile of constants and regexp.QuoteMeta'd values only: the constant skeleton is compiled here,
+						// with a literal in place of every quoted value — if that compiles, the call cannot panic
+						if fn.Pkg().Path() == "regexp" && fn.Name() == "MustCompile" && len(x.Args) == 1 {
+							sample, raw := "", ""
+							for _, pc := range rxProvenance(info, fb, x.Args[0], 0) {
+								switch pc.kind {
+								case "const":
+									sample += pc.text
+								case "quoted":
+									sample += "x"
+								default:
+									raw = pc.text
+								}
+							}
+							if _, err := regexp.Compile(sample); raw == "" && err == nil {
+								n++
+								c.Fn(fb)
+								c.OK("panic-sites-reviewed", ordinal(ord, "regexp.MustCompile(constants+QuoteMeta)@"+strings.TrimPrefix(fb.Pkg.PkgPath, Mod+"/")), x.Pos(), "the pattern consists of constants and regexp.QuoteMeta'd values; its skeleton "+strconv.Quote(sample)+" compiles")
+								return true
+							}
+						}
 						report("Must-call with a non-constant argument", fn.Pkg().Name()+"."+fn.Name(), x.Pos())
 					}
 				}
@@ -421,6 +447,8 @@ func c16NilElements(c *Check, a *Anchors) {
 				c.OK("yaml-nil-elements", key, r.Pos(), "nil-free input: this function is only handed the compiled task by the task body")
 			case firstTest != 0 && firstTest < firstDeref:
 				c.OK("yaml-nil-elements", key, r.Pos(), "element tested against nil before its first dereference")
+			case builtFromDereferenced(info, fb.Root(), r.X):
+				c.OK("yaml-nil-elements", key, r.Pos(), "the slice is built in this function, by appending values that were already dereferenced when they were appended (so none of them is nil)")
 			case nilFreeInputs[k] != "":
 				c.OK("yaml-nil-elements", key, r.Pos(), "nil-free input: "+nilFreeInputs[k])
 			case nilFreeInputs["pkg "+strings.TrimPrefix(fb.Pkg.PkgPath, Mod+"/")+"|"+src] != "":
@@ -536,4 +564,111 @@ func bundleShape(fb *FuncBody, e ast.Expr) string {
 		return ""
 	}
 	return types.TypeString(tv.Type, shortQual) + "[" + shapeOf(info, ix.Index) + "]"
+}
+
+// parallelMadeIndex: `s[i]` where i is the key of an enclosing `for i := range t` and s is a local slice whose only
+// definition is make([]T, len(t)) — the two slices have the same length, so the index is in range by construction.
+func parallelMadeIndex(fb *FuncBody, n ast.Node) string {
+	ix, ok := n.(*ast.IndexExpr)
+	if !ok {
+		return ""
+	}
+	info := fb.Info()
+	sv, iv := varOf(info, ix.X), varOf(info, ix.Index)
+	if sv == nil || iv == nil || sv.IsField() {
+		return ""
+	}
+	root := fb.Root()
+	def := singleDef(root.Info(), root.Body, sv)
+	if def == nil {
+		return ""
+	}
+	mk, ok := ast.Unparen(def).(*ast.CallExpr)
+	if !ok || !isBuiltin(info, mk, "make") || len(mk.Args) != 2 {
+		return ""
+	}
+	ln, ok := ast.Unparen(mk.Args[1]).(*ast.CallExpr)
+	if !ok || !isBuiltin(info, ln, "len") || len(ln.Args) != 1 {
+		return ""
+	}
+	pm := parentMap(fb.Body)
+	for p := pm[n]; p != nil; p = pm[p] {
+		r, ok := p.(*ast.RangeStmt)
+		if !ok || r.Key == nil || varOf(info, r.Key) != iv {
+			continue
+		}
+		if exprStr(r.X) != exprStr(ln.Args[0]) {
+			return ""
+		}
+		if tv := varOf(info, r.X); tv != nil && !tv.IsField() {
+			// the ranged slice is not re-assigned between the make and the loop
+			nAs := 0
+			inspectDeep(root.Body, func(m ast.Node) bool {
+				if as, ok := m.(*ast.AssignStmt); ok && as.Pos() > mk.Pos() && as.Pos() < r.End() {
+					for _, l := range as.Lhs {
+						if varOf(info, l) == tv {
+							nAs++
+						}
+					}
+				}
+				return true
+			})
+			if nAs > 0 {
+				return ""
+			}
+			return "`" + exprStr(ix.X) + "` is made with len(" + exprStr(r.X) + ") and the index is the key of the loop over " + exprStr(r.X)
+		}
+		return ""
+	}
+	return ""
+}
+
+// builtFromDereferenced: e is a local slice of this function every definition of which is empty (var / nil / make with
+// length 0) or an append, to itself, of variables that had a field selected before the append — a nil value would not have
+// got that far.
+func builtFromDereferenced(info *types.Info, root *FuncBody, e ast.Expr) bool {
+	v := varOf(info, e)
+	if v == nil || v.IsField() || isParamOf(info, root, v) || v.Parent() == v.Pkg().Scope() {
+		return false
+	}
+	nApp := 0
+	for _, d := range defsOf(info, root.Body, v) {
+		d = ast.Unparen(d)
+		if isNilLit(info, d) {
+			continue
+		}
+		call, ok := d.(*ast.CallExpr)
+		if !ok {
+			return false
+		}
+		if isBuiltin(info, call, "make") {
+			if len(call.Args) >= 2 && !constIs(info, call.Args[1], "0") {
+				return false
+			}
+			continue
+		}
+		if !isBuiltin(info, call, "append") || len(call.Args) < 2 || varOf(info, call.Args[0]) != v || call.Ellipsis != token.NoPos {
+			return false
+		}
+		for _, arg := range call.Args[1:] {
+			av := varOf(info, arg)
+			if av == nil {
+				return false
+			}
+			deref := false
+			inspectDeep(root.Body, func(m ast.Node) bool {
+				if sel, ok := m.(*ast.SelectorExpr); ok && sel.Pos() < call.Pos() && varOf(info, sel.X) == av {
+					if s := info.Selections[sel]; s != nil && s.Kind() == types.FieldVal && s.Indirect() {
+						deref = true
+					}
+				}
+				return true
+			})
+			if !deref {
+				return false
+			}
+			nApp++
+		}
+	}
+	return nApp > 0
 }
